@@ -233,6 +233,19 @@ fn create_doc_for_subexpression_considering_precedence_level(
   }
 }
 
+/// `a.b < c` is read by the parser as the start of explicit type arguments (`a.b<T>`), so a left
+/// operand of `<` whose printed form can end with a field name keeps its parentheses.
+fn may_end_with_field_name(e: &expr::E<()>) -> bool {
+  match e {
+    expr::E::FieldAccess(f) => f.explicit_type_arguments.is_none(),
+    expr::E::MethodAccess(f) => f.explicit_type_arguments.is_none(),
+    expr::E::Unary(u) => may_end_with_field_name(&u.argument),
+    expr::E::Binary(b) => may_end_with_field_name(&b.e2),
+    expr::E::Lambda(l) => may_end_with_field_name(&l.body),
+    _ => false,
+  }
+}
+
 fn create_doc_for_if_else(
   heap: &Heap,
   comment_store: &CommentStore,
@@ -599,13 +612,11 @@ fn create_doc_without_preceding_comment(
     expr::E::Literal(_, Literal::Bool(false)) => Document::Text("false"),
     expr::E::Literal(_, Literal::Bool(true)) => Document::Text("true"),
     expr::E::Literal(_, Literal::Int(i)) => Document::non_static_str(i.to_string()),
-    expr::E::Literal(_, Literal::String(s)) => {
-      Document::concat(vec![
-        Document::Text("\""),
-        Document::non_static_str(s.as_str(heap).replace('"', "\\\"")),
-        Document::Text("\""),
-      ])
-    }
+    expr::E::Literal(_, Literal::String(s)) => Document::concat(vec![
+      Document::Text("\""),
+      Document::non_static_str(s.as_str(heap).replace('"', "\\\"")),
+      Document::Text("\""),
+    ]),
     expr::E::LocalId(_, id) | expr::E::ClassId(_, _, id) => text_pstr(heap, id.name),
     expr::E::Tuple(_, e) => create_doc_for_parenthesized_expression_list(heap, comment_store, e),
     expr::E::FieldAccess(_) | expr::E::MethodAccess(_) | expr::E::Call(_) => {
@@ -644,10 +655,29 @@ fn create_doc_without_preceding_comment(
         Document::Text(e.operator.kind_str()),
         Document::Text(" "),
       ]);
+      let guard_e1 =
+        matches!(e.operator, expr::BinaryOperator::LT) && may_end_with_field_name(&e.e1);
+      let e1_doc = || {
+        if guard_e1 {
+          parenthesis_surrounded_doc(create_doc(heap, comment_store, &e.e1))
+        } else {
+          create_doc_for_subexpression_considering_precedence_level(
+            heap,
+            comment_store,
+            expression,
+            &e.e1,
+            true,
+          )
+        }
+      };
       if e.e1.precedence() == expression.precedence() {
         // Since we are doing left to right evaluation, this is safe.
         return Document::concat(vec![
-          create_doc(heap, comment_store, &e.e1),
+          if guard_e1 {
+            parenthesis_surrounded_doc(create_doc(heap, comment_store, &e.e1))
+          } else {
+            create_doc(heap, comment_store, &e.e1)
+          },
           operator_preceding_comments_docs,
           operator_doc,
           create_doc_for_subexpression_considering_precedence_level(
@@ -665,13 +695,7 @@ fn create_doc_without_preceding_comment(
           expr::BinaryOperator::MINUS | expr::BinaryOperator::DIV | expr::BinaryOperator::MOD => {}
           _ => {
             return Document::concat(vec![
-              create_doc_for_subexpression_considering_precedence_level(
-                heap,
-                comment_store,
-                expression,
-                &e.e1,
-                true,
-              ),
+              e1_doc(),
               operator_preceding_comments_docs,
               operator_doc,
               create_doc(heap, comment_store, &e.e2),
@@ -681,13 +705,7 @@ fn create_doc_without_preceding_comment(
       }
       // Safest rule
       Document::concat(vec![
-        create_doc_for_subexpression_considering_precedence_level(
-          heap,
-          comment_store,
-          expression,
-          &e.e1,
-          true,
-        ),
+        e1_doc(),
         operator_preceding_comments_docs,
         operator_doc,
         create_doc_for_subexpression_considering_precedence_level(
